@@ -177,6 +177,32 @@ type mutation struct {
 	f    func(r *rng, n *pb.Network, s *sites) string
 }
 
+// mutations that need a multiplexer apply to few sites: they are tried more often
+var mutationWeight = map[string]int{"mux-groups": 4, "nested-name-clash": 3, "deep-name-clash": 4, "group-count-boundary": 4, "cross-mux-ref": 4, "retarget-id": 3}
+
+func pickMutation(r *rng) mutation {
+	total := 0
+	for _, m := range mutations {
+		w := mutationWeight[m.name]
+		if w == 0 {
+			w = 1
+		}
+		total += w
+	}
+	x := r.below(total)
+	for _, m := range mutations {
+		w := mutationWeight[m.name]
+		if w == 0 {
+			w = 1
+		}
+		if x < w {
+			return m
+		}
+		x -= w
+	}
+	return mutations[0]
+}
+
 func pickID(r *rng, s *sites, kind string) string {
 	switch r.below(10) {
 	case 0:
@@ -610,6 +636,135 @@ var mutations = []mutation{
 		l := s.ifLists[r.below(len(s.ifLists))]
 		*l = append(*l, &pb.NodeInterface{Number: src.Number, NodeEntityId: src.NodeEntityId})
 		return "interface listed a second time (no messages), same or other bus"
+	}},
+	{"deep-name-clash", func(r *rng, n *pb.Network, s *sites) string {
+		// inside ONE top-level multiplexer: a signal held by an inner multiplexer takes the name of a signal
+		// held by an enclosing multiplexer, of the top-level multiplexer itself, or of a sibling inner multiplexer
+		type node struct {
+			sig   *pb.Signal
+			depth int
+			path  []*pb.Signal // enclosing multiplexers, outermost first
+		}
+		var tops []*pb.Signal
+		for _, m := range s.msgs {
+			for _, x := range m.Signals {
+				if mx := x.GetMultiplexer(); mx != nil {
+					for _, c := range mx.Signals {
+						if c.GetMultiplexer() != nil && len(c.GetMultiplexer().Signals) > 0 {
+							tops = append(tops, x)
+							break
+						}
+					}
+				}
+			}
+		}
+		if len(tops) == 0 {
+			return ""
+		}
+		top := tops[r.below(len(tops))]
+		var all []node
+		var walk func(x *pb.Signal, depth int, path []*pb.Signal)
+		walk = func(x *pb.Signal, depth int, path []*pb.Signal) {
+			all = append(all, node{x, depth, path})
+			if mx := x.GetMultiplexer(); mx != nil {
+				for _, c := range mx.Signals {
+					walk(c, depth+1, append(append([]*pb.Signal(nil), path...), x))
+				}
+			}
+		}
+		walk(top, 0, nil)
+		for t := 0; t < 40; t++ {
+			a, b := all[r.below(len(all))], all[r.below(len(all))]
+			if a.depth < 2 || a.sig == b.sig || a.sig.Entity == nil || b.sig.Entity == nil || b.depth >= a.depth && b.depth != a.depth {
+				continue
+			}
+			if a.sig.Entity.EntityId == b.sig.Entity.EntityId || a.sig.Entity.Name == b.sig.Entity.Name {
+				continue
+			}
+			// same depth only when held by different inner multiplexers (siblings)
+			if b.depth == a.depth && len(a.path) > 0 && len(b.path) > 0 && a.path[len(a.path)-1] == b.path[len(b.path)-1] {
+				continue
+			}
+			a.sig.Entity.Name = b.sig.Entity.Name
+			return fmt.Sprintf("signal at depth %d of a multiplexer tree renamed to the name of a signal at depth %d of the same tree", a.depth, b.depth)
+		}
+		return ""
+	}},
+	{"cross-mux-ref", func(r *rng, n *pb.Network, s *sites) string {
+		// a group ref of one multiplexer names a signal held by ANOTHER multiplexer of the file
+		// (sibling, other message, enclosing or nested), or such a signal is listed again in its signals
+		if len(s.muxes) < 2 {
+			return ""
+		}
+		for t := 0; t < 20; t++ {
+			a, b := s.muxes[r.below(len(s.muxes))], s.muxes[r.below(len(s.muxes))]
+			if a == b || len(a.Signals) == 0 {
+				continue
+			}
+			src := a.Signals[r.below(len(a.Signals))]
+			if src.Entity == nil {
+				continue
+			}
+			if r.chance(70) {
+				var refs []*pb.SignalPayloadRef
+				for _, g := range b.Groups {
+					refs = append(refs, g.Refs...)
+				}
+				if len(refs) == 0 {
+					if len(b.Groups) == 0 {
+						continue
+					}
+					b.Groups[0].Refs = append(b.Groups[0].Refs, &pb.SignalPayloadRef{SignalEntityId: src.Entity.EntityId, RelStartBit: 0})
+					return "group ref added that names a signal of another multiplexer"
+				}
+				refs[r.below(len(refs))].SignalEntityId = src.Entity.EntityId
+				return "group ref retargeted to a signal of another multiplexer"
+			}
+			b.Signals = append(b.Signals, proto.Clone(src).(*pb.Signal))
+			if len(b.Groups) > 0 && r.chance(50) {
+				b.Groups[0].Refs = append(b.Groups[0].Refs, &pb.SignalPayloadRef{SignalEntityId: src.Entity.EntityId, RelStartBit: uint32(r.below(8))})
+			}
+			return "signal of another multiplexer listed again (same entity id) in this multiplexer"
+		}
+		return ""
+	}},
+	{"group-count-boundary", func(r *rng, n *pb.Network, s *sites) string {
+		// the groups list has exactly group_count + 1 (or - 1) entries; the extra one holds a non-fixed signal
+		if len(s.muxes) == 0 {
+			return ""
+		}
+		m := s.muxes[r.below(len(s.muxes))]
+		fixed := map[string]bool{}
+		for _, f := range m.FixedSignalEntityIds {
+			fixed[f] = true
+		}
+		var src *pb.SignalPayload
+		for _, g := range m.Groups {
+			for _, ref := range g.Refs {
+				if !fixed[ref.SignalEntityId] {
+					src = g
+				}
+			}
+		}
+		switch r.below(4) {
+		case 0, 1:
+			if src == nil {
+				return ""
+			}
+			for uint32(len(m.Groups)) <= m.GroupCount && len(m.Groups) < 70000 {
+				m.Groups = append(m.Groups, proto.Clone(src).(*pb.SignalPayload))
+			}
+			return "groups list has group_count + 1 entries, the last one holding a non-fixed signal"
+		case 2:
+			if m.GroupCount >= 1 && uint32(len(m.Groups)) == m.GroupCount && src != nil {
+				m.GroupCount--
+				return "group_count lowered by one (one group too many)"
+			}
+		case 3:
+			m.GroupCount++
+			return "group_count raised by one (one group missing)"
+		}
+		return ""
 	}},
 	{"nested-name-clash", func(r *rng, n *pb.Network, s *sites) string {
 		// a multiplexed signal takes the name of a signal at another level of the same message
@@ -1072,8 +1227,15 @@ func runC13(seed uint64, ncases int, outPath string, replay string) {
 	var bases []*pb.Network
 	var baseBytes [][3][]byte
 	nb := 12 + ncases/200
-	for i := 0; i < nb; i++ {
+	deep := 0
+	for i := 0; i < nb || (deep*3 < len(bases) && i < 4*nb); i++ {
 		w := genWorld(master.next(), i%4 != 0)
+		if i >= nb && w.maxDepth < 2 {
+			continue // extra draws only to reach one third of bases with nested multiplexers
+		}
+		if w.maxDepth >= 2 {
+			deep++
+		}
 		var bufs [3]bytes.Buffer
 		if err := acmelib.SaveNetwork(w.net, 7, &bufs[0], &bufs[1], &bufs[2]); err != nil {
 			continue
@@ -1103,7 +1265,7 @@ func runC13(seed uint64, ncases int, outPath string, replay string) {
 		}
 		descr := []string{}
 		for tries := 0; len(descr) < k && tries < 20; tries++ {
-			mu := mutations[r.below(len(mutations))]
+			mu := pickMutation(r)
 			if d := mu.f(r, tree, collect(tree)); d != "" {
 				descr = append(descr, mu.name+": "+d)
 				st.hist["mut-"+mu.name]++
